@@ -320,6 +320,28 @@ def w_real(job):
                 p1.wait(timeout=10)
             except subprocess.TimeoutExpired:
                 p1.kill()
+        elif which == 'close-after-server-died':
+            # the server process is gone (crashed, killed) when close() is called: the session ends all the same and the client
+            # can be used again with a new server
+            env = Environment(env={'SUPP_LOG_LEVEL': '100', 'PYTHONPATH': core.REPO})
+            env.configure({'sources': ['.']})
+            p1 = env.proc
+            p1.kill()
+            p1.wait(timeout=10)
+            try:
+                env.close()
+            except Exception as e:
+                prob, detail = 'close-raises:%s:after-server-died' % type(e).__name__, repr(e)
+            try:
+                env.configure({'sources': ['.']})
+                r = env.lint('x = 1\n', 'a.py')
+                p2 = env.proc
+                if r != [] or p2.pid == p1.pid or p2.poll() is not None:
+                    prob, detail = 'not-reusable-after-close:after-server-died', 'reply %r, pid %s (dead one: %s), poll %s' % (r, p2.pid, p1.pid, p2.poll())
+                env.close()
+                p2.wait(timeout=10)
+            except Exception as e:
+                prob, detail = prob or 'not-reusable-after-close:after-server-died', detail or 'second session after close(): %r' % (e,)
         elif which == 'close-without-session':
             env = Environment()
             try:
@@ -480,7 +502,7 @@ def w_real(job):
     return sh.result()
 
 
-REAL = ['close-then-reuse', 'reuse-while-old-server-exits-slowly', 'close-without-session', 'client-exits', 'client-killed', 'client-closes-connection', 'unstartable-executable', 'executable-exits-at-once', 'slow-executable-then-retry', 'prepare-then-call-later', 'first-call-from-short-lived-thread', 'server-slow-to-listen']
+REAL = ['close-then-reuse', 'close-after-server-died', 'reuse-while-old-server-exits-slowly', 'close-without-session', 'client-exits', 'client-killed', 'client-closes-connection', 'unstartable-executable', 'executable-exits-at-once', 'slow-executable-then-retry', 'prepare-then-call-later', 'first-call-from-short-lived-thread', 'server-slow-to-listen']
 
 
 def run(run):
